@@ -192,6 +192,9 @@ def disk_jobs(rng, tier, certs):
             if item[0].endswith("tick.json"):
                 item[1] = text
         jobs.append((f"disk:malformed:{k}", j))
+    # ---- (round 5) calls into the #copy library x the function folder the library uses x pack formats on both sides of 48
+    for origin, j in lib_jobs(rng, certs):
+        jobs.append((origin, j))
     # ---- sample of the full matrix
     n = 40 if tier == "quick" else 300
     for k in range(n):
@@ -213,6 +216,66 @@ def disk_jobs(rng, tier, certs):
                        extra_tag_keys=rng.choice([None, None, {"replace": False}, {"replace": True, "x": [1]}]), compact=rng.random() < 0.5)
         jobs.append((f"disk:random:{k}", job))
     return jobs
+
+
+# --------------------------------------------------------------------------- (round 5) #copy libraries
+# the program CALLS functions that only a file of the #copy folder defines (DataPack.is_function_in_copy feeds build()'s
+# undefined-call check).  Only the function folder the configured pack format loads counts: `function` from 48, `functions` below.
+LIB_CALLS = {
+    "plain": 'function main() { say "m"; lib.f(); }',
+    "execute-run": 'function main() { execute as @a at @s run lib.f(); say "after"; }',
+    "class": 'class util { function go() { say "go"; lib.f(); } } function main() { util.go(); }',
+    "schedule": 'function main() { schedule function lib.f() 5t; say "s"; }',
+    "nested-if": 'function main() { if ($x > 1) { say "a"; lib.deep.g(); } else { lib.f(); say "b"; } }',
+    "tick": 'function @TICK@() { lib.f(); } function main() { lib.deep.g(); }',
+}
+LIB_LAYOUTS = {"function": ["function"], "functions": ["functions"], "both": ["function", "functions"]}
+LIB_PACK_FORMATS = ["48", "61", "47", "15", "81", "26"]
+
+
+def lib_files(ns, folders, names=("lib/f", "lib/deep/g")):
+    return [[f"data/{ns}/{folder}/{n}.mcfunction", f"say library {n}"] for folder in folders for n in names]
+
+
+def lib_jobs(rng, certs):
+    out = []
+    i = 0
+    for layout, folders in LIB_LAYOUTS.items():
+        for pf in LIB_PACK_FORMATS:
+            cert = certs[i % len(certs)]
+            ns = DISK_NAMESPACES[i % len(DISK_NAMESPACES)]
+            forms = list(LIB_CALLS)
+            forms = forms[i % len(forms):] + forms[:i % len(forms)]
+            forms = forms[:4 if pf in ("48", "47", "15") else 2]
+            j = disk_job(rng, cert=cert, ns=ns, pf=pf, seq=["plain"] * len(forms), load_kind="foreign" if i % 2 else None,
+                         tick_kind=None, where="copy", entry="steps" if i % 4 == 3 else "compile_jmc")
+            j["copy"] += lib_files(ns, folders)
+            loaded = ff_of(pf) in folders
+            for b, form in zip(j["builds"], forms):
+                b["src"] = LIB_CALLS[form].replace("@TICK@", fname(cert["TICK"]))
+                b["program"] = f"lib:{form}"
+            j["meta"].update(lib_layout=layout, expect_ok=[loaded] * len(forms),
+                             expect_note="a call to a function only the #copy library defines is accepted iff the library ships the file under "
+                                         f"data/<ns>/{ff_of(pf)}/ — the function folder pack format {pf} loads")
+            out.append((f"disk:lib:{layout}:{pf}", j))
+            i += 1
+    # the library lives in an #override namespace; one name in the loaded folder, the other only in the other folder
+    for pf in ("48", "15"):
+        other = "functions" if ff_of(pf) == "function" else "function"
+        j = disk_job(rng, cert=certs[0], ns="mypack", pf=pf, seq=["plain", "plain", "plain"], load_kind=None, tick_kind=None, where="copy",
+                     extras=["#override lib_x"])
+        j["copy"] += [[f"data/lib_x/{ff_of(pf)}/a/ok.mcfunction", "say ok"], [f"data/lib_x/{other}/a/wrong.mcfunction", "say wrong"],
+                      [f"data/mypack/{other}/lib/f.mcfunction", "say wrong too"], [f"data/mypack/{ff_of(pf)}/lib/deep/g.mcfunction", "say g"]]
+        j["builds"][0]["src"] = 'function main() { lib_x.a.ok(); lib.deep.g(); }'
+        j["builds"][1]["src"] = 'function main() { lib_x.a.ok(); lib_x.a.wrong(); }'
+        j["builds"][2]["src"] = 'function main() { lib.deep.g(); execute as @a run lib.f(); }'
+        # a generated function the library also ships (in the loaded folder: refused; in the other folder: no clash)
+        j["builds"].append(dict(j["builds"][0], src='function lib.deep.g() { say "mine"; } function main() { lib.deep.g(); }'))
+        j["builds"].append(dict(j["builds"][0], src='function lib.f() { say "mine"; } function main() { lib.f(); lib_x.a.ok(); }'))
+        j["meta"].update(lib_layout="mixed", expect_ok=[True, False, False, False, True],
+                         expect_note=f"only files under the {ff_of(pf)}/ folder of the #copy library count at pack format {pf}")
+        out.append((f"disk:lib:override:{pf}", j))
+    return out
 
 
 # --------------------------------------------------------------------------- the direct oracle on the tree read back from disk
@@ -427,6 +490,16 @@ def run_disk(ck, tier, certs, reported):
     failing = set()
     kinds: dict = {}
     for idx, (origin, job, bi, br) in enumerate(flat):
+        exp = job["meta"].get("expect_ok")
+        if exp is not None and bool(br["ok"]) != exp[bi]:
+            failing.add(idx)
+            kinds["library-call-verdict"] = kinds.get("library-call-verdict", 0) + 1
+            if ("disk", "library-call-verdict", exp[bi]) not in reported:
+                reported.add(("disk", "library-call-verdict", exp[bi]))
+                f = dict(kind="library-call-verdict", expected_accepted=exp[bi], actual_accepted=bool(br["ok"]), exc=br.get("exc"),
+                         msg=(br.get("msg") or "")[:300], note=job["meta"].get("expect_note"),
+                         library_files=[rel for rel, _ in job.get("copy") or [] if rel.endswith(".mcfunction")])
+                ck.violation(disk_report(origin, job, bi, br, f))
         if not br["ok"] or not br.get("cfg"):
             continue
         n_ok += 1
@@ -489,7 +562,10 @@ def run_disk(ck, tier, certs, reported):
                 tick_tag_changed_by_build=sum(1 for _, job, _, br in flat if br["ok"] and any(
                     TAG_PATH.match(p) and p.endswith("tick.json") and p in br["before"] | (br.get("copy") or {}) and br["after"].get(p) is not None
                     and br["after"].get(p) != (br.get("copy") or {}).get(p, br["before"].get(p)) for p in br["after"])),
-                tag_errors=sum(1 for _, _, _, br in flat if not br["ok"] and br.get("exc") == "JMCBuildError"))
+                tag_errors=sum(1 for _, _, _, br in flat if not br["ok"] and br.get("exc") == "JMCBuildError"),
+                library_call_builds=sum(1 for _, job, _, _ in flat if job["meta"].get("expect_ok") is not None),
+                library_calls_accepted=sum(1 for _, job, _, br in flat if job["meta"].get("expect_ok") is not None and br["ok"]),
+                library_calls_refused=sum(1 for _, job, _, br in flat if job["meta"].get("expect_ok") is not None and not br["ok"]))
 
 
 def disk_report(origin, job, bi, br, f):
@@ -507,6 +583,11 @@ def replay_disk(rep) -> int:
     for bi, br in enumerate(r["builds"]):
         b = job["builds"][bi]
         print(f"--- build {bi}: {b['src'][:200]}\n    header: {b.get('header')!r}")
+        exp = (job.get("meta") or {}).get("expect_ok")
+        if exp is not None and bool(br["ok"]) != exp[bi]:
+            print(f"    actual: build {'accepted' if br['ok'] else 'refused'}; expected {'accepted' if exp[bi] else 'refused'} "
+                  f"({job['meta'].get('expect_note')})")
+            bad += 1
         if not br["ok"]:
             print("    actual: build fails with", br.get("exc"), (br.get("msg") or "")[:300])
             continue
